@@ -111,6 +111,8 @@ def make_prelude(rnd, tag):
         text += ln + (rnd.choice(['\n', '\r\n', '\r']) if eol == 'mixed' else eol)
     if text and rnd.random() < 0.25:
         text = text.rstrip('\r\n')
+    if rnd.random() < 0.12:
+        text = '\ufeff' + text          # a prelude file saved "with BOM": U+FEFF is its first character
     return text
 
 
@@ -217,6 +219,9 @@ def make_item(seed):
     it['files'][pn] = src
     if pep263:
         it['latin1'] = pn
+    elif rnd.random() < 0.06:
+        it['bom_script'] = pn            # a build script saved as UTF-8 with BOM (valid Python)
+        it['script_kind'] = 'utf8-bom'
     flag = []
     if var != 'ffibuilder' or rnd.random() < 0.2:
         flag = rnd.choice([['--ffi-var', var], ['--ffi-var=' + var]])
@@ -263,6 +268,8 @@ def materialize(it, d):
             data = text.encode('latin-1', 'backslashreplace')
         else:
             data = text.encode('utf-8')
+            if it.get('bom_script') == name:
+                data = b'\xef\xbb\xbf' + data
         with open(B(d, name), 'wb') as f:
             f.write(data)
 
